@@ -7,3 +7,5 @@ import MJ.Props.C05
 #print axioms MJ.C05.bareBreak_gets_stuck
 #print axioms MJ.C05.nested_restores
 #print axioms MJ.C05.earlyReturn_is_not_a_restore
+#print axioms MJ.C05.compile_has_cert
+#print axioms MJ.C05.compiled_code_balanced
